@@ -28,7 +28,7 @@ ASSUMPTIONS = ['pattern family and instantiation pool as listed under bounds; ta
 RULE = ('one evaluation = one (pattern, target, seed) triple; distinct = distinct triples; non-trivial = the match succeeded (its result was then applied and compared) or the '
         'triple is a first-order instance (completeness)')
 EXPLANATION = 'see LEVEL_TEXT; the SMT query pat[inst] = target is decided over all models with type variables as uninterpreted sorts (finite-model fallback)'
-BUDGET_S = {'quick': 240, 'thorough': 1200}
+BUDGET_S = {'quick': 240, 'thorough': 900}
 
 
 def bounds(tier):
